@@ -2431,9 +2431,11 @@ class sptensor:
 
         # TF+1 for logical consideration because 0 is valid index
         # and -1 is our null flag
-        idxa = np.logical_and(tf + 1, newvals)[0]
-        idxb = np.logical_and(tf + 1, np.logical_not(newvals))[0]
-        idxc = np.logical_and(np.logical_not(tf + 1), newvals)[0]
+        exists = tf >= 0
+        nonzero = newvals.reshape(-1) != 0
+        idxa = np.logical_and(exists, nonzero)
+        idxb = np.logical_and(exists, np.logical_not(nonzero))
+        idxc = np.logical_and(np.logical_not(exists), nonzero)
 
         # Process Group A: Changing values
         if np.sum(idxa) > 0:
